@@ -5,7 +5,8 @@
 From Coq Require Import Strings.String Strings.Byte.
 From Coq Require Import List Arith NArith Bool Lia.
 From Verif Require Import Model.Lifecycle Model.CallLife Model.Graceful
-  Proofs.LifecycleProofs Proofs.PeerProofs Proofs.C07Lemmas Proofs.CallLifeProofs.
+  Proofs.LifecycleProofs Proofs.PeerProofs Proofs.C07Lemmas Proofs.CallLifeProofs Proofs.GracefulProofs
+  Proofs.NoOrphanProofs.
 Import ListNotations.
 
 (* the done signal fires at most once, and the completion channel gets exactly as many
@@ -36,6 +37,16 @@ Theorem C02_internal_runs_bounded : forall es s s',
   all_internal s es -> srun s es = Some s' -> length es + mu s' <= mu s.
 Proof. exact internal_run_bounded. Qed.
 Print Assumptions C02_internal_runs_bounded.
+
+(* no_orphan: in a terminal state (no goroutine of the session can move and no read error is
+   pending) in which the connection is lost, the socket is closed or the status is closed, every
+   issued call has completed exactly once *)
+Theorem C02_no_orphan : forall s,
+  reach_sess s -> terminal s = true ->
+  (conn s = false \/ sock s = false \/ closed (st s) = true) ->
+  forall i c, nth_error (calls s) i = Some c -> c_dones c = 1.
+Proof. exact no_orphan_lemma. Qed.
+Print Assumptions C02_no_orphan.
 
 (* ---- the pinned tree ---- *)
 (* read loop's early exit leaves the bound call's mutex locked: after the connection is lost
